@@ -194,7 +194,7 @@ def run_fidelity(rng, res, idx):
 
 
 def plan(tier, seed):
-    n = tier_value(tier, 96, 1600)
+    n = tier_value(tier, 96, 3200)
     shards = tier_value(tier, 12, 14)
     per = max(1, n // shards)
     specs = [dict(first=i * per, count=per, budget_s=tier_value(tier, 50, 540)) for i in range(shards)]
